@@ -44,7 +44,7 @@ pub fn guarded<F: FnOnce() -> f64>(f: F) -> Val {
 pub struct Acc { pub op: String, pub stat: &'static str, pub val: Val }
 fn acc(op: &str, stat: &'static str, val: Val) -> Acc { Acc { op: op.to_string(), stat, val } }
 
-pub trait Est: Clone + std::fmt::Debug {
+pub trait Est: Clone + std::fmt::Debug + Default {
     const NAME: &'static str;
     /// order of the moments estimator (0 for the fixed types)
     const ORDER: usize = 0;
@@ -57,6 +57,9 @@ pub trait Est: Clone + std::fmt::Debug {
     fn from_iter_ref(v: &[f64]) -> Self;
     fn extend_val(&mut self, v: &[f64]);
     fn extend_ref(&mut self, v: &[f64]);
+    /// the same paths fed by iterators whose size_hint has lower bound 0 (filter, take_while, from_fn)
+    fn from_iter_lazy(v: &[f64]) -> Self;
+    fn extend_lazy(&mut self, v: &[f64], kind: usize);
     fn headline(&self) -> Option<(String, f64)> { None }
     fn estimate(&self) -> Option<f64> { None }
 }
@@ -67,6 +70,14 @@ macro_rules! ingest_impl {
         fn from_iter_ref(v: &[f64]) -> Self { v.iter().collect() }
         fn extend_val(&mut self, v: &[f64]) { self.extend(v.iter().cloned()) }
         fn extend_ref(&mut self, v: &[f64]) { self.extend(v.iter()) }
+        fn from_iter_lazy(v: &[f64]) -> Self { v.iter().cloned().filter(|_| true).collect() }
+        fn extend_lazy(&mut self, v: &[f64], kind: usize) {
+            match kind % 3 {
+                0 => self.extend(v.iter().cloned().filter(|_| true)),
+                1 => self.extend(v.iter().take_while(|_| true)),
+                _ => { let mut i = 0; self.extend(std::iter::from_fn(|| { let r = v.get(i).cloned(); i += 1; r })) }
+            }
+        }
     };
 }
 
@@ -230,6 +241,8 @@ impl Est for average::Max {
     // Max has no Extend impl in the crate; fall back to add
     fn extend_val(&mut self, v: &[f64]) { for x in v { Estimate::add(self, *x) } }
     fn extend_ref(&mut self, v: &[f64]) { for x in v { Estimate::add(self, *x) } }
+    fn from_iter_lazy(v: &[f64]) -> Self { v.iter().cloned().filter(|_| true).collect() }
+    fn extend_lazy(&mut self, v: &[f64], _kind: usize) { for x in v { Estimate::add(self, *x) } }
     fn headline(&self) -> Option<(String, f64)> { Some(("max".into(), self.max())) }
     fn estimate(&self) -> Option<f64> { Some(Estimate::estimate(self)) }
 }
